@@ -220,12 +220,14 @@ RecapsViol(g2, ev) ==
     ELSE {}
 
 \* C13 round trips
+RtAlso(ev) == IF ev.obj \in {"msk", "usk"} THEN {"C17"} ELSE {}
 RoundTripViol(ev) ==
     IF ev.op = "roundtrip" /\ ev.res # "skip"
+    \* (C17: registrations and identifiers "survive serialization" -- they live in master keys and user keys)
     THEN IF ev.res # "ok"
-         THEN {Vio({"C13"}, "round trip failed", ev.res, <<ev.obj, Get(ev, "errk", "")>>)}
+         THEN {Vio({"C13"} \cup RtAlso(ev), "round trip failed", ev.res, <<ev.obj, Get(ev, "errk", "")>>)}
          ELSE IF ~(ev.rt.len_ok /\ ev.rt.write_ok /\ ev.rt.eq_ok /\ ev.rt.relen_ok)
-              THEN {Vio({"C13"}, "round trip not faithful", "none", <<ev.obj, ev.rt>>)}
+              THEN {Vio({"C13"} \cup RtAlso(ev), "round trip not faithful", "none", <<ev.obj, ev.rt>>)}
               ELSE {}
     ELSE {}
 
